@@ -44,6 +44,17 @@ def main():
                 lean["leanchecker"] = V.leanchecker(prop) if hasattr(V, "leanchecker") else None
         else:
             lean["axioms"] = {n: [] for n in V.theorems_of(prop)}
+        # corpus of minimised past failures runs first
+        import glob
+        for cf in sorted(glob.glob(str(V.CORPUS / f"{prop}-*.json"))):
+            payload = json.load(open(cf))
+            try:
+                ok = module.replay(payload)
+            except Exception as e:  # a witness that cannot be replayed is an infrastructure problem
+                raise V.Infra(f"corpus replay {cf} raised {type(e).__name__}: {e}")
+            ctx.count("corpus_replays")
+            if not ok:
+                ctx.fail(payload.get("key", "corpus"), "corpus witness fails again: " + payload.get("what", ""), {k: v for k, v in payload.items() if k not in ("what",)})
         module.run(ctx)
         return V.finish(ctx, module, lean)
     except V.Infra as e:
